@@ -22,20 +22,9 @@ import (
 	"pgregory.net/rapid"
 )
 
-// disc is one discrepancy between the implementation and the oracle.
-type disc struct {
-	Kind   string `json:"kind"`
-	Detail string `json:"detail"`
-	// KF is the id of the known finding whose signature this discrepancy
-	// matches ("" = none). It only suppresses when that id is listed open.
-	KF string `json:"kf,omitempty"`
-}
+type disc = evid.Disc
 
-func (d disc) String() string { return d.Kind + ": " + d.Detail }
-
-func dsc(kind, format string, a ...interface{}) []disc {
-	return []disc{{Kind: kind, Detail: fmt.Sprintf(format, a...)}}
-}
+func dsc(kind, format string, a ...interface{}) []disc { return evid.D(kind, format, a...) }
 
 // propDef wires one property into the common protocol.
 type propDef struct {
